@@ -368,8 +368,8 @@ impl Property for C16 {
     }
     fn budget(&self, tier: Tier) -> (u32, usize) {
         match tier {
-            Tier::Quick => (12_000, 8),
-            Tier::Thorough => (400_000, 16),
+            Tier::Quick => (400_000, 8),
+            Tier::Thorough => (8_000_000, 16),
         }
     }
     fn run(&self, case: &RcCase) -> Report {
